@@ -106,6 +106,14 @@ THEOREMS = {
             "JP.C13.unskipped_succeeds", "JP.C13.skipped_is_identity", "JP.C13.skipped_only_absent", "JP.C13.specSkipped_head",
         ],
     },
+    "C14": {
+        "JP.Props.C14": [
+            "JP.C14.found_at_path", "JP.C14.found_at_path_resolve", "JP.C14.agrees_with_plain_add", "JP.C14.agrees_with_plain_add_op",
+            "JP.C14.only_path_and_padding", "JP.C14.only_path_and_padding_arr", "JP.C14.frame", "JP.C14.frame_through_arrays",
+            "JP.C14.add_uses_parsed_tokens", "JP.C14.tokens_decoded", "JP.C14.opAdd_ensure_refines_toks", "JP.C14.opAdd_ensure_refines",
+            "JP.C14.applyOp_refines_ensure", "JP.C14.applyOps_refines_ensure", "JP.C14.apply_refines_ensure",
+        ],
+    },
     "C15": {
         "JP.Props.C15text": [
             "JP.C15.unquote_escBody", "JP.C15.escBody_idem", "JP.C15.escBody_clean", "JP.C15.escBody_valid",
@@ -119,6 +127,12 @@ THEOREMS = {
         ],
     },
     "C17": {
+        "JP.Props.C17codec": [
+            "JP.C17.compact_spec", "JP.C17.compact_spec_noescape", "JP.C17.compact_preserves", "JP.C17.compact_escape_value",
+            "JP.C17.compact_escape_parse", "JP.C17.indent_layout", "JP.C17.indent_preserves", "JP.C17.indent_print_partial",
+            "JP.C17.htmlEscape_eq", "JP.C17.htmlEscape_parse", "JP.C17.htmlEscape_value", "JP.C17.htmlEscape_clean",
+            "JP.C17.compact_htmlEscape", "JP.C17.parse_wfc", "JP.C17.scan_trace",
+        ],
         "JP.Props.C17": [
             "JP.C17.encodeRune_decodeRune", "JP.C17.decodeRune_reencode", "JP.C17.unquote_quoteBody", "JP.C17.quoteBody_valid",
             "JP.C17.quoteBody_clean", "JP.C17.unquote_quoteBody_switch", "JP.C17.quoteBody_utf8", "JP.C17.unquoteBody_valid",
